@@ -660,10 +660,29 @@ Definition empty_msg : msg := {| m_id := 0; m_flags := 0; m_ednsflags := 0; m_qu
 Definition unknown_pabs : pabs :=
   {| p_short := false; p_msg := empty_msg; p_err := Some niOther; p_trailing := false |}.
 
+(* the first four octets of a message: id and flags *)
+Definition wire_header (w : list Z) : option (Z * Z) :=
+  match w with
+  | b0 :: b1 :: b2 :: b3 :: _ => Some (b0 * 256 + b1, b2 * 256 + b3)
+  | _ => None
+  end.
+
+(* a description agrees with its wire string on what can be read off the octets directly:
+   short header <-> fewer than 12 octets, and id / flags are the first two 16-bit fields *)
+Definition header_ok (w : list Z) (a : pabs) : bool :=
+  if p_short a then Nat.ltb (length w) 12
+  else negb (Nat.ltb (length w) 12)
+       && match wire_header w with
+          | Some (id, fl) => (id =? m_id (p_msg a)) && (fl =? m_flags (p_msg a))
+          | None => false
+          end.
+
+(* descriptions that contradict their own wire string are not used (the case then shows up as
+   a disagreement) *)
 Fixpoint lookup (t : list (list Z * pabs)) (w : list Z) : pabs :=
   match t with
   | [] => unknown_pabs
-  | (k, a) :: r => if zlist_eqb k w then a else lookup r w
+  | (k, a) :: r => if zlist_eqb k w then (if header_ok w a then a else unknown_pabs) else lookup r w
   end.
 
 Definition dec_uopts (o : obs) : option uopts :=
